@@ -444,6 +444,19 @@ func c12republish(b core.Batch, r *core.Recorder, e c12env) {
 
 // c12quiesce waits until the cleanup-run counter and the global gauges have been unchanged for 10 ms (bounded).
 func c12quiesce() {
+	// First the janitor of the cache that was just shut down must be gone: a cleanup cycle that was in progress when
+	// it was told to stop still finishes and moves the process-global gauges, and on a loaded machine its goroutine
+	// can lose the CPU for longer than the "nothing moved for 10 ms" rule below waits (it then moved the gauges of
+	// the NEXT case after their reset: a false alarm, DESIGN 6.4). Only the test's own goroutine is in this package
+	// besides it, and that one is not inside reservoir/cache while it waits here.
+	for try := 0; try < 2000; try++ {
+		buf := make([]byte, 1<<20)
+		buf = buf[:runtime.Stack(buf, true)]
+		if !strings.Contains(string(buf), "reservoir/cache.(*cacheJanitor") {
+			break
+		}
+		time.Sleep(5 * time.Millisecond)
+	}
 	type snap struct{ runs, n, b int64 }
 	read := func() snap {
 		return snap{metrics.Global.Cache.CleanupRuns.Get(), metrics.Global.Cache.CacheEntries.Get(), metrics.Global.Cache.BytesCached.Get()}
